@@ -5,6 +5,8 @@ CONSTANTS
   MaxIds = 2
   Pfx = {"p", "q:"}
   Pool = {"a", "x", "z", "pz", "q:z"}
+  CopyImmediates = FALSE
+  MaxEnvs = 2
   MaxTicks = 0
   StartLibs <- Libs
 INVARIANTS GenOK Emit
